@@ -3,7 +3,7 @@
 // The function subtracts the first vertex from every coordinate before summing the determinants; the proof carries the
 // shifted sum as the loop invariant and then shows (induction, translation invariance of the shoelace sum of a CLOSED
 // ring) that it equals the unshifted textbook sum.  Open rings and rings with fewer than three coordinates give zero.
-// The inline closure `|c| c - shift` is given its types and a ghost contract (X10); `LineString::lines()` and
+// The inline closure `|c|` is given its types and a ghost contract (X10); `LineString::lines()` and
 // `Line::map_coords` are twins (contracts: K harness c19_k_linestring / unit c19_map).
 //@include prelude_exact.rs
 use vstd::std_specs::iter::IteratorSpec;
@@ -114,7 +114,7 @@ proof fn lemma_shoelace_shift<T: CoordNum>(s: Seq<Coord<T>>, k: int, hx: int, hy
         linestring.0@.len() >= 3 && ceq(linestring.0@[0], linestring.0@.last()) ==> r.val() == shoelace2(linestring.0@, linestring.0@.len() - 1),
 //@entry
     proof { T::ax_obeys(); T::ax_order(); T::ax_ring(); }
-//@closure 1 `|c| c - shift` | c: Coord<T> | cr: Coord<T>
+//@closure 1 `|c|` | c: Coord<T> | cr: Coord<T>
         ensures cr.x.val() == c.x.val() - shift.x.val(), cr.y.val() == c.y.val() - shift.y.val()
 //@loop 1 it
         invariant
